@@ -10,16 +10,31 @@ open Cstruct Cstruct.Core.Lemmas
 /-- the validator's state between two members outside a bit run: only the static position is known -/
 def syncSt (o : Option Nat) : VSt := { spos := o, lastAlign := none, unit := none, dirty := false }
 
+/-- what the validator knows of the static position, against the layout offset `lo` and the generator's tracked offset
+    `c`: the validator knows the layout offset, or it knows nothing (after an alignment statement in front of a bit-field
+    that continues a unit) and then the generator has forgotten its offset as well (so it will emit a seek) -/
+def Known (sp lo c : Option Nat) : Prop := sp = lo ∨ (sp = none ∧ c = none)
+
+theorem Known.of_some {sp lo c : Option Nat} {x : Nat} (h : Known sp lo c) (hc : c = some x) : sp = lo := by
+  rcases h with h | ⟨_, h⟩
+  · exact h
+  · rw [h] at hc; cases hc
+
+theorem Known.of_none {sp c : Option Nat} (h : Known sp none c) : sp = none := by
+  rcases h with h | ⟨h, _⟩ <;> exact h
+
 /-- the part of the simulation invariant that speaks about the pending block (no bit run is open) -/
-structure PlainSt (cfg : Cfg) (al : Bool) (gst : GState) (vst : VSt) (lo : Option Nat)
+structure PlainSt (cfg : Cfg) (al : Bool) (gst : GState) (vst : VSt) (bs lo : Option Nat)
     (fsV : Fields) (offsV : List (Option Nat)) (fs : Fields) (offs : List (Option Nat)) : Prop where
   pend : Pending gst.block fsV offsV fs offs
-  chain : Chain cfg al gst.block vst.spos lo
+  /-- `bs` is the layout's running offset in front of the pending block -/
+  chain : Chain cfg al gst.block bs lo
+  sync : Known vst.spos bs (if gst.block.isEmpty = true then gst.cur else gst.blockOff)
   mem : ∀ f ∈ gst.block, Member cfg al f
   vfresh : VoidsFresh gst.block
   vfresh2 : ∀ f ∈ gst.block, isVoid f.ty = true → f.name ∉ Fields.names fs
-  boff : gst.block ≠ [] → ∀ c l, gst.blockOff = some c → vst.spos = some l → c ≤ l
-  dyn : al = true → vst.spos = none → gst.block.length ≤ 1
+  boff : gst.block ≠ [] → ∀ c l, gst.blockOff = some c → bs = some l → c ≤ l
+  dyn : al = true → bs = none → gst.block.length ≤ 1
   vsync : vst = syncSt vst.spos
   np : gst.prevBits = false
   rem0 : gst.bitsRem = 0
@@ -50,16 +65,19 @@ theorem seek_same (cfg : Cfg) (al : Bool) (salign : Nat) (o size : Nat) (fmt : O
   rw [planOKAux]
   cases hd : dropVoids cfg al fsV offsV (syncSt (some o)).spos with
   | none =>
-    simp only
-    rw [planOKAux]
-    simp only [syncSt, Bool.false_eq_true, if_false] at hd ⊢
-    rw [hd]
+    have hb : planOKAux cfg al salign (.block size fmt slots :: rest) fsV offsV (syncSt (some o)) = false := by
+      rw [planOKAux]
+      simp only [syncSt, Bool.false_eq_true, if_false] at hd ⊢
+      rw [hd]
+    have heq : ({ syncSt (some o) with spos := some o, lastAlign := none } : VSt) = syncSt (some o) := rfl
+    simp only [heq, hb, Bool.and_false]
   | some r =>
     obtain ⟨fs', offs', sk⟩ := r
     have hdv := dv_of_dropVoids cfg al hd
     have heq : ({ syncSt (some o) with spos := some o, lastAlign := none } : VSt) = syncSt (some o) := rfl
     simp only [heq]
     have e := planOKAux_dv cfg al salign (.block size fmt slots :: rest) (by simp) (syncSt (some o)) rfl _ _ _ _ hdv
+      (Or.inr (by simp))
     rw [e]
     simp [syncSt]
 
@@ -79,6 +97,7 @@ theorem align_one (cfg : Cfg) (al : Bool) (salign : Nat) (size : Nat) (fmt : Opt
     obtain ⟨fs', offs', sk⟩ := r
     have hdv := dv_of_dropVoids cfg al hd
     have e := planOKAux_dv cfg al salign (.block size fmt slots :: rest) (by simp) (syncSt bo) rfl _ _ _ _ hdv
+      (Or.inr (by simp))
     simp only
     rw [← e]
     simp [syncSt]
@@ -101,7 +120,7 @@ theorem block_step (cfg : Cfg) (al : Bool) (salign : Nat) (st1 : VSt) (hd1 : st1
   | cons sl slots' =>
     obtain ⟨fs0, offs0, sk, hdr, hso'⟩ := slotsOK_dropVoids cfg al its size st1.spos st1.lastAlign sl slots' fsV offsV _ hso
     simp only [hdr, hso', beq_self_eq_true, Bool.true_and, List.isEmpty_cons, Bool.false_eq_true, if_false]
-    exact planOKAux_dv cfg al salign rest hh _ rfl _ _ _ _ hdv
+    exact planOKAux_dv cfg al salign rest hh _ rfl _ _ _ _ hdv (Or.inl hfs)
   | nil =>
     rw [slotsOK.eq_def] at hso
     simp only [Option.some.injEq, Prod.mk.injEq] at hso
@@ -123,40 +142,54 @@ theorem block_step (cfg : Cfg) (al : Bool) (salign : Nat) (st1 : VSt) (hd1 : st1
     rw [slotsOK.eq_def]
     simp only [beq_self_eq_true, Bool.true_and]
     have hdv2 := dv_of_dropVoids cfg al hdr
-    exact planOKAux_dv cfg al salign rest hh _ rfl _ _ _ _ (by simp only [syncSt]; rw [hdv2, hdv])
+    exact planOKAux_dv cfg al salign rest hh _ rfl _ _ _ _ (by simp only [syncSt]; rw [hdv2, hdv]) (Or.inl (by rw [hz] at hfs; exact hfs))
 
 theorem padNat_aligned {a : Nat} (ha : IsP2 a) (o : Nat) : padNat (o + padNat o a) a = 0 :=
   padNat_of_dvd ha (padNat_p2_dvd ha o)
 
+/-- a seek in front of a block whose first member is a void member the stream is not known to be at: the void member
+    stays under the cursor -/
+theorem seek_void (cfg : Cfg) (al : Bool) (salign : Nat) (o : Nat) (is : Plan) (name : String) (an : Bool) (ty : Ty)
+    (fsV : Fields) (offsV : List (Option Nat)) (hv : isVoid ty = true) :
+    planOKAux cfg al salign (.seek o :: is) (.cons name an ty none fsV) (some o :: offsV) (syncSt none) =
+      planOKAux cfg al salign is (.cons name an ty none fsV) (some o :: offsV) (syncSt (some o)) := by
+  rw [planOKAux, dropVoids_void _ _ _ _ _ _ _ _ hv]
+  simp [voidOK, hdOff, syncSt, nextStatic]
+
 /-- `flush()` -/
-theorem flush_ok (cfg : Cfg) (al : Bool) (salign : Nat) (gst : GState) (vst : VSt) (lo : Option Nat)
+theorem flush_ok (cfg : Cfg) (al : Bool) (salign : Nat) (gst : GState) (vst : VSt) (bs lo : Option Nat)
     (fsV : Fields) (offsV : List (Option Nat)) (fs : Fields) (offs : List (Option Nat))
-    (hP : PlainSt cfg al gst vst lo fsV offsV fs offs) (fl : Plan) (hfl : flush cfg al gst = .ok fl)
+    (hP : PlainSt cfg al gst vst bs lo fsV offsV fs offs) (fl : Plan) (hfl : flush cfg al gst = .ok fl)
     (hfs : ∃ r, dropVoids cfg al fs offs lo = some r) (rest : Plan) (hh : rest.head? ≠ some .bitsReset) :
-    planOKAux cfg al salign (fl ++ rest) fsV offsV vst = planOKAux cfg al salign rest fs offs (syncSt lo) := by
+    ∃ sp', planOKAux cfg al salign (fl ++ rest) fsV offsV vst = planOKAux cfg al salign rest fs offs (syncSt sp') ∧
+      Known sp' lo gst.cur := by
   obtain ⟨sp, la, un, di⟩ := vst
   have hvs := hP.vsync
   simp only [syncSt, VSt.mk.injEq, true_and] at hvs
   obtain ⟨rfl, rfl, rfl⟩ := hvs
-  change planOKAux cfg al salign (fl ++ rest) fsV offsV (syncSt sp) = _
+  change ∃ sp', planOKAux cfg al salign (fl ++ rest) fsV offsV (syncSt sp) = _ ∧ _
   have hp : Pending gst.block fsV offsV fs offs := hP.pend
-  have hc : Chain cfg al gst.block sp lo := hP.chain
+  have hc : Chain cfg al gst.block bs lo := hP.chain
   have hm := hP.mem
-  have hboff : gst.block ≠ [] → ∀ c l, gst.blockOff = some c → sp = some l → c ≤ l := hP.boff
-  have hdynl : al = true → sp = none → gst.block.length ≤ 1 := hP.dyn
+  have hsync : Known sp bs (if gst.block.isEmpty = true then gst.cur else gst.blockOff) := hP.sync
+  have hboff : gst.block ≠ [] → ∀ c l, gst.blockOff = some c → bs = some l → c ≤ l := hP.boff
+  have hdynl : al = true → bs = none → gst.block.length ≤ 1 := hP.dyn
   unfold flush at hfl
   cases hB : gst.block with
   | nil =>
     rw [hB] at hfl
     cases hfl
-    rw [hB] at hp hc
+    rw [hB] at hp hc hsync
     cases hp
     simp only [Chain] at hc
-    rw [List.nil_append, hc]
+    subst hc
+    exact ⟨sp, by rw [List.nil_append], by simpa using hsync⟩
   | cons f0 B0 =>
-    rw [hB] at hfl
+    rw [hB] at hfl hsync
+    simp only [List.isEmpty_cons, Bool.false_eq_true, if_false] at hsync
     simp only at hfl
     rw [← hB] at hfl
+    refine ⟨lo, ?_, Or.inl rfl⟩
     split at hfl
     · cases hfl
     · rename_i blk hg
@@ -170,8 +203,8 @@ theorem flush_ok (cfg : Cfg) (al : Bool) (salign : Nat) (gst : GState) (vst : VS
         -- static: the block is read at `o`
         simp only [Option.isNone_some, Bool.false_eq_true, and_false, if_false, List.append_nil]
         rw [hoff] at hc1 hc2
-        obtain ⟨b0, rfl⟩ : ∃ b0, sp = some b0 := by
-          cases sp with
+        obtain ⟨b0, rfl⟩ : ∃ b0, bs = some b0 := by
+          cases bs with
           | none => cases hc1
           | some b0 => exact ⟨b0, rfl⟩
         simp only [alignOpt, Option.map_some, Option.some.injEq] at hc1
@@ -196,7 +229,7 @@ theorem flush_ok (cfg : Cfg) (al : Bool) (salign : Nat) (gst : GState) (vst : VS
         · rw [if_pos hsk]
           simp only [List.cons_append, List.nil_append]
           -- the seek
-          have hseek : planOKAux cfg al salign (.seek o :: .block size fmt slots :: rest) fsV offsV (syncSt (some b0)) =
+          have hseek : planOKAux cfg al salign (.seek o :: .block size fmt slots :: rest) fsV offsV (syncSt sp) =
               planOKAux cfg al salign (.block size fmt slots :: rest) fsV offsV (syncSt (some o)) := by
             by_cases hv : isVoid f0.ty = true
             · have : o = b0 := by
@@ -208,7 +241,16 @@ theorem flush_ok (cfg : Cfg) (al : Bool) (salign : Nat) (gst : GState) (vst : VS
                   rw [hmf.voidAlign hv hal, padNat_one] at hc1
                   simpa using hc1
               subst this
-              exact seek_same cfg al salign o size fmt slots rest fsV offsV
+              rcases hsync with h | ⟨h, _⟩
+              · subst h
+                exact seek_same cfg al salign o size fmt slots rest fsV offsV
+              · subst h
+                rw [hB] at hp
+                cases hp with
+                | cons name an ty o' hp' =>
+                  simp only at hv hoff
+                  subst hoff
+                  exact seek_void cfg al salign o _ name an ty _ _ hv
             · rw [hB] at hp
               cases hp with
               | cons name an ty o' hp' =>
@@ -225,6 +267,8 @@ theorem flush_ok (cfg : Cfg) (al : Bool) (salign : Nat) (gst : GState) (vst : VS
               rw [hbo] at hsk
               simp only [ne_eq, Option.some.injEq, Decidable.not_not] at hsk
               rw [hsk]
+          have hsp : sp = some b0 := hsync.of_some hbo
+          subst hsp
           have hle := hboff (by rw [hB]; simp) o b0 hbo rfl
           have : o = b0 := by
             cases hal : al with
@@ -235,10 +279,11 @@ theorem flush_ok (cfg : Cfg) (al : Bool) (salign : Nat) (gst : GState) (vst : VS
       | none =>
         -- dynamic: the block is read where the stream is (aligned in an aligned structure)
         rw [hoff] at hc1 hc2
-        obtain rfl : sp = none := by
-          cases sp with
+        obtain rfl : bs = none := by
+          cases bs with
           | none => rfl
           | some b0 => cases hc1
+        obtain rfl : sp = none := hsync.of_none
         have hre : Chain cfg al (f0 :: B0) none lo := ⟨by rw [hoff]; rfl, by rw [hoff]; exact hc2⟩
         simp only [List.nil_append, Option.isNone_none, and_true]
         cases hal : al with
